@@ -268,6 +268,12 @@ def run_c15(ck):
     progs = [genasm.gen_symbol_program(rng) for _ in range(n)]
     jobs = [{"mode": "asm", "files": {"main.asm": genasm.render_program(P)}, "roots": ["main.asm"],
              "want": {"messages": False, "spans": False}} for P in progs]
+    # slices indexed through constants, declared in every order
+    for _ in range(60 if quick else 1500):
+        P = genasm.gen_slice_consts(rng)
+        progs.append(P)
+        jobs.append({"mode": "asm", "files": {"main.asm": genasm.render_program(P)}, "roots": ["main.asm"],
+                     "want": {"messages": False, "spans": False}})
     # chains of constants in every declaration order, also under small iteration budgets
     # (the budget bounds the passes over addresses, not how far constants may depend on each other)
     for length in (list(range(2, 46, 3)) if quick else range(2, 61)):
